@@ -22,7 +22,6 @@ def _is_atom_char(b):
 def parse_commands(data):
     """strict parse of everything a client wrote; returns [(verb, [args])]; args are bytes (strings),
     int (numbers) or ('atom', bytes)."""
-    data = bytes(data)
     out = []
     i = 0
     n = len(data)
@@ -50,28 +49,28 @@ def parse_commands(data):
             c = data[i]
             if c == 0x22:
                 j = i + 1
-                val = bytearray()
+                val = b""           # built from slices of data (stays symbolic under CrossHair)
                 while True:
                     if j >= n:
                         raise ProtoError("unterminated quoted string")
                     b = data[j]
                     if b == 0x22:
                         break
-                    if b in (0, 10, 13):
+                    if b == 0 or b == 10 or b == 13:
                         raise ProtoError("CR/LF/NUL inside a quoted string")
                     if b == 0x5C:
-                        if j + 1 >= n or data[j + 1] not in (0x22, 0x5C):
+                        if j + 1 >= n or (data[j + 1] != 0x22 and data[j + 1] != 0x5C):
                             raise ProtoError("bad escape in quoted string")
-                        val.append(data[j + 1])
+                        val = val + data[j + 1:j + 2]
                         j += 2
                         continue
-                    val.append(b)
+                    val = val + data[j:j + 1]
                     j += 1
                 try:
-                    bytes(val).decode("utf-8")
+                    val.decode("utf-8")
                 except UnicodeDecodeError:
                     raise ProtoError("quoted string is not UTF-8")
-                args.append(bytes(val))
+                args.append(val)
                 i = j + 1
             elif c == 0x7B:
                 j = i + 1
